@@ -482,6 +482,139 @@ def giant_hds(rng, dense, ver=2):
     return Giant(f"hds-v{ver}", [vf], lambda: HDS(vf), size, probes, meta, note={"clusters": n, "ver": ver})
 
 
+def giant_vdi_parent(rng, dense):
+    """A differencing VDI over a parent VDI, both 2 TiB: what a read costs in the parent is bounded like any other read."""
+    from dissect.hypervisor.disk.vdi import VDI
+    bs = 1 << 20
+    nb = (2 << 40) // bs
+    blocks_offset = 512
+    data_offset = (blocks_offset + 4 * nb + 511) // 512 * 512
+
+    def layer(fid, picks, posbase, is_child):
+        pos = {b: posbase - 2 * k for k, b in enumerate(sorted(picks))}
+
+        def map_gen(off, n):
+            out = bytearray(b"\xff" * n)
+            for b, p in pos.items():
+                v = struct.pack("<i", p)
+                for j in range(4):
+                    q = b * 4 + j - off
+                    if 0 <= q < n:
+                        out[q] = v[j]
+            return bytes(out)
+        hdr = enc_vdi.header(blocks_offset, data_offset, nb * bs, bs, nb, len(pos), image_type=4 if is_child else 1)
+        ext = [(0, len(hdr), "bytes", hdr), (blocks_offset, 4 * nb, "fn", map_gen)] + [(data_offset + p * bs, bs, "pat", fid) for p in pos.values()]
+        return VirtualFile(max(e[0] + e[1] for e in ext), ext, fid=fid), pos
+    hole = nb // 3
+    child_picks = {0, nb // 2} | ({x for x in (rng.randrange(nb) for _ in range(200)) if x not in (hole, 1, nb - 1, 7)} if dense else set())
+    parent_picks = {1, 7, nb - 1, nb // 2} | ({x for x in (rng.randrange(nb) for _ in range(200)) if x != hole} if dense else set())
+    cvf, cpos = layer(0, child_picks, (1 << 21) - 5, True)
+    pvf, ppos = layer(1, parent_picks, (1 << 21) - 9, False)
+    probes = []
+    for b in (0, 1, 7, nb - 1, nb // 2):
+        o = b * bs + rng.choice([0, 512, bs - 4096])
+        src = (0, cpos[b]) if b in cpos else (1, ppos[b])
+        probes.append((o, 4096, patterns.pat(src[0], data_offset + src[1] * bs + (o - b * bs), 4096)))
+    probes.append((hole * bs + 99, 5000, bytes(5000)))
+    meta = 2 * (512 + 4 * nb)
+
+    def opener():
+        pvf.seek(0)
+        cvf.seek(0)
+        return VDI(cvf, parent=VDI(pvf))
+    return Giant("vdi-with-parent", [cvf, pvf], opener, nb * bs, probes, meta, note={"blocks": nb, "layers": 2})
+
+
+def giant_vmdk_stream(rng, dense):
+    """A stream-optimised extent (compressed grains, grain directory behind the data, located through the footer): opening reads
+    header, footer, descriptor and directory - not the grain area, however much of it there is."""
+    from dissect.hypervisor.disk.vmdk import VMDK
+    grain, gtes = 128, 512
+    cap = (16 << 30) // 512
+    ng = cap // grain
+    want = sorted({0, 3, gtes, ng // 2, ng - 1} | ({x for x in (rng.randrange(ng) for _ in range(1500)) if x != ng // 3} if dense else set()))
+    ents = [("U", 0)] * ng
+    for k, g in enumerate(want):
+        ents[g] = ("D", k + 1)
+    ngt = -(-ng // gtes)
+    present = [any(ents[r][0] == "D" for r in range(t * gtes, min(ng, (t + 1) * gtes))) for t in range(ngt)]
+    csalt = 4096 * rng.randrange(1, 1000)
+    vf, info = enc_vmdk.build_hosted(ents, present, capacity=cap, grain=grain, gtes=gtes, footer=True, compressed=True, lba=True, slot_mult=1, max_pos=len(want) + 2,
+                                     csalt=csalt)
+    probes = []
+    for g in (0, 3, gtes, ng // 2, ng - 1):
+        o = g * grain * 512 + rng.choice([0, 512, 65536 - 4096])
+        probes.append((o, 4096, patterns.cpat(csalt + ents[g][1], o - g * grain * 512, 4096)))
+    probes.append(((ng // 3) * grain * 512 + 77, 6000, bytes(6000)))
+    meta = 512 + 1024 + 2048 + ngt * 4 + sum(present) * gtes * 4
+    return Giant("vmdk-stream", [vf], lambda: VMDK(vf), cap * 512, probes, meta, c0=64 << 10, note={"grains": len(want), "capacity_sectors": cap})
+
+
+def giant_vhdx_diff(rng, dense):
+    """A differencing VHDX (12 TiB) over a parent, on real sparse files: partially present blocks in chunks far beyond the first
+    one, sector bitmaps and payload several TiB into the file."""
+    import shutil
+    import tempfile
+    from pathlib import Path
+    from dissect.hypervisor.disk.vhdx import VHDX
+    bs, sector = 32 << 20, 512
+    spb = bs // sector
+    nb = (12 << 40) // bs
+    cr = (2 ** 23 * sector) // bs
+    root = tempfile.mkdtemp(prefix="verif-c13x-")
+    pick = sorted({0, cr + 1, 5 * cr - 1, nb // 2, nb - 1} | ({x for x in (rng.randrange(nb) for _ in range(60)) if x != nb // 3} if dense else set()))
+    top = (6 << 20) // (bs >> 20)                 # block slots ~6 TiB into the file
+    ppos = {b: top + 2 * k for k, b in enumerate(pick)}
+    cpos = {b: top + 2 * k + 1 for k, b in enumerate(pick)}
+    pblocks = [(enc_vhdx.ST_FULL, ppos[b]) if b in ppos else (enc_vhdx.ST_NOT_PRESENT, None) for b in range(nb)]
+    def thin(vf, info, positions, fid):
+        # only the parts of the payload blocks that are read exist in the real file (the encoder's single payload extent would
+        # cover terabytes)
+        vf._ext = [e for e in vf._ext if not (e[2] == "pat" and e[1] > (1 << 28))]
+        for p in positions:
+            base = info["data_base"] + p * bs
+            vf._ext += [(base, 128 << 10, "pat", fid), (base + bs // 2, 8 << 10, "pat", fid), (base + bs - (128 << 10), 128 << 10, "pat", fid)]
+        vf._ext.sort(key=lambda e: e[0])
+        vf._starts = [e[0] for e in vf._ext]
+        assert sum(e[1] for e in vf._ext) < (1 << 30), "giant would be materialised"
+    pvf, pinfo = enc_vhdx.build(pblocks, block_size=bs, sector_size=sector, disk_size=nb * bs, file_id=1)
+    thin(pvf, pinfo, ppos.values(), 1)
+    pvf.materialise(os.path.join(root, "base.vhdx"))
+    # child: the picked blocks are partially present (even sectors of the first 64 and the last 64 sectors of the block)
+    present = [x for x in range(64) if x % 2 == 0] + [spb - 64 + x for x in range(64) if x % 3 == 0]
+    chunks = sorted({b // cr for b in pick})
+    bitmaps = {}
+    for c in chunks:
+        bits = bytearray(cr * spb // 8)
+        for b in pick:
+            if b // cr == c:
+                for x in present:
+                    g = (b % cr) * spb + x
+                    bits[g // 8] |= 1 << (g % 8)
+        bitmaps[c] = bytes(bits)
+    cblocks = [(enc_vhdx.ST_PARTIAL, cpos[b]) if b in cpos else (enc_vhdx.ST_NOT_PRESENT, None) for b in range(nb)]
+    loc = {"parent_linkage": "{1}", "relative_path": ".\\base.vhdx", "absolute_win32_path": "C:\\nowhere\\base.vhdx"}
+    cvf, cinfo = enc_vhdx.build(cblocks, block_size=bs, sector_size=sector, disk_size=nb * bs, has_parent=True, locator=loc, bitmaps=bitmaps, file_id=0)
+    thin(cvf, cinfo, cpos.values(), 0)
+    cvf.materialise(os.path.join(root, "child.avhdx"))
+    counter = PathCounter()
+    probes = []
+    for b in (0, cr + 1, 5 * cr - 1, nb // 2, nb - 1):
+        for x in (rng.choice(present), rng.choice([1, 3, 65, spb // 2])):
+            o = b * bs + x * sector
+            src, base, pos = (0, cinfo["data_base"], cpos[b]) if x in present else (1, pinfo["data_base"], ppos[b])
+            probes.append((o, sector, patterns.pat(src, base + pos * bs + x * sector, sector)))
+    probes.append(((nb // 3) * bs + 4096, 4096, bytes(4096)))
+    meta = 2 * (5 * 65536 + (1 << 20)) + (cinfo["nent"] + pinfo["nent"]) * 8 + len(probes) * 4096
+
+    def opener():
+        with counter.patched():
+            return VHDX(Path(root) / "child.avhdx")
+    g = Giant("vhdx-differencing", [counter], opener, nb * bs, probes, meta, c0=4 << 20, note={"blocks": nb, "chunk_ratio": cr, "partial_blocks": len(pick)})
+    g.cleanup = lambda: shutil.rmtree(root, ignore_errors=True)
+    return g
+
+
 def giant_qcow2_2m(rng, dense):
     return giant_qcow2(rng, dense, cb=21)
 
@@ -494,7 +627,7 @@ def giant_vhdx_4k(rng, dense):
     return giant_vhdx(rng, dense, sector=4096)
 
 
-BUILDERS = [giant_qcow2, giant_qcow2_2m, giant_vmdk_se, giant_vmdk_hosted, giant_vmdk_descriptor, giant_vhdx, giant_vhdx_4k, giant_vhd, giant_vdi, giant_hds, giant_hds_v1]
+BUILDERS = [giant_qcow2, giant_qcow2_2m, giant_vmdk_se, giant_vmdk_hosted, giant_vmdk_descriptor, giant_vmdk_stream, giant_vdi_parent, giant_vhdx_diff, giant_vhdx, giant_vhdx_4k, giant_vhd, giant_vdi, giant_hds, giant_hds_v1]
 
 
 def measure(g):
